@@ -5,6 +5,8 @@ A contract has two sides kept in one place:
   * `apply`  : what a *caller* may assume (precondition obligations are emitted at the call site);
   * the verification tasks in contracts/tasks_*.py prove the same statement of the callee's body.
 """
+import os
+
 import z3
 
 from pyvc import smt
@@ -184,6 +186,14 @@ class Obligation:
         self.solver, self.time_s, self.reason = res.solver, res.time_s, res.reason
         if res.status == "unsat":
             self.status = "discharged"
+            if os.environ.get("PYVC_CROSSCHECK") == "1" and "cvc5" not in (res.solver or ""):
+                # thorough tier: an independent confirmation by the other installed solver (only `unsat` counts; anything
+                # else leaves z3's verdict as it is and is reported as "not confirmed")
+                try:
+                    if smt._cvc5_check(smt.to_smt2(fs), min(timeout_ms, 5000)) == "unsat":
+                        self.solver = (res.solver or "z3") + "+cvc5"
+                except Exception:      # noqa
+                    pass
         elif res.status == "sat":
             self.status = "failed"
             self.model = res.model
